@@ -118,7 +118,7 @@ class Impl:
         self.closer_status = "none"
         self.exc = OSError(5, "injected fatal error")
         loop = self.loop
-        if kind == "endpoint":
+        if kind in ("endpoint", "socket-adapter"):
             from easynetwork.lowlevel.api_async.backend._asyncio.datagram.endpoint import DatagramEndpoint, DatagramEndpointProtocol
 
             rq: asyncio.Queue[Any] = asyncio.Queue()
@@ -129,6 +129,14 @@ class Impl:
             ep = DatagramEndpoint(self.tr, self.proto, recv_queue=rq, exception_queue=eq)
             self.adapter: Any = ep
             self._send = lambda i: ep.sendto(b"d%d" % i, ("127.0.0.1", 9))
+            if kind == "socket-adapter":
+                # one layer up: the transport object the endpoints and clients of the library hold
+                from easynetwork.lowlevel.api_async.backend._asyncio.backend import AsyncIOBackend
+                from easynetwork.lowlevel.api_async.backend._asyncio.datagram.socket import AsyncioTransportDatagramSocketAdapter
+
+                ad = AsyncioTransportDatagramSocketAdapter(AsyncIOBackend(), ep)
+                self.adapter = ad
+                self._send = lambda i: ad.send(b"d%d" % i)
         elif kind == "stream":
             # the stream adapter has the same shape: send_all() = transport.write() + drain, aclose() = close() + shielded wait
             from easynetwork.lowlevel.api_async.backend._asyncio.backend import AsyncIOBackend
@@ -301,7 +309,7 @@ DIRECTED = [
 
 def _replay(chk: Check, g: graph.Graph, paths: list[list[tuple[str, tuple[Any, ...], int]]], senders: list[int], label: str) -> tuple[int, int]:
     ncmp = nbad = 0
-    for kind in ("endpoint", "listener", "stream"):
+    for kind in ("endpoint", "listener", "stream", "socket-adapter"):
         for path in paths:
             impl = Impl(kind)
             done: list[str] = []
@@ -316,7 +324,7 @@ def _replay(chk: Check, g: graph.Graph, paths: list[list[tuple[str, tuple[Any, .
                             nbad += 1
                             if nbad <= 12:
                                 chk.violation(
-                                    {"kind": "replay", "spec": "DatagramFlow", "adapter": ("datagram-" if kind != "stream" else "") + kind, "what": "divergence"},
+                                    {"kind": "replay", "spec": "DatagramFlow", "adapter": ("datagram-" if kind not in ("stream",) else "") + kind, "what": "divergence"},
                                     f"asyncio {'datagram ' if kind != 'stream' else ''}{kind} adapter diverges from DatagramFlow after [{' '.join(done)}] ('|' = the loop runs until nothing is scheduled): "
                                     f"implementation {got} / specification {want}",
                                     {"kind": "datagram_flow", "adapter": kind, "actions": [(a, list(ar)) for a, ar, _d in path], "got": got, "want": want},
@@ -366,7 +374,7 @@ def run(chk: Check) -> None:
         ncmp, nbad = _replay(chk, g, paths, senders, consts["Senders"])
         total["comparisons"] += ncmp
         total["diverging"] += nbad
-        total["behaviours"] += 3 * len(paths)
-        chk.traces += 3 * len(paths)
+        total["behaviours"] += 4 * len(paths)
+        chk.traces += 4 * len(paths)
         chk.states += len(g.states)
     chk.extra["datagram_flow_replay"] = total
